@@ -1,5 +1,5 @@
 """C12: closest_point / interior_point (Gen_Closest.tla, Trace_Interior.tla, Gen_Poly.tla)."""
-import json, os, re
+import json, os, re, subprocess
 import vf
 
 RULE = ("closest_point: TLC (Gen_Closest) enumerates geometry x query point and decides the required answer exactly: "
@@ -46,7 +46,7 @@ def _pool(tier, runs):
     """Polygons of Gen_Poly (ext, holes) -> pool file read back by Gen_Closest."""
     pool = os.path.join(vf.WORK, "C12_pool.ndjson")
     n = 0
-    with open(pool, "w") as o:
+    with open(pool + ".unsorted", "w") as o:
         for r in _poly_runs(tier):
             res = vf.run_tlc("C12_poly_" + r["name"], "Gen_Poly", dict(constants=r["constants"], invariants=["ShellOK"]), timeout=3000)
             vf.tlc_ok_or_die(res)
@@ -63,7 +63,15 @@ def _pool(tier, runs):
             runs.append(res)
     if n == 0:
         raise vf.ToolError("Gen_Poly produced no polygons")
+    _sort(pool + ".unsorted", pool)       # TLC prints in worker order: fix the order so that pool indices are reproducible
     return pool, n
+
+
+def _sort(src, dst):
+    r = subprocess.run(["sort", "-o", dst, src], env=dict(os.environ, LC_ALL="C"))
+    if r.returncode != 0:
+        raise vf.ToolError("sort failed on " + src)
+    os.remove(src)
 
 
 def _generate(name, mode, fams, stride, mstride, seed, pool, runs):
@@ -72,10 +80,11 @@ def _generate(name, mode, fams, stride, mstride, seed, pool, runs):
                      env_extra={"POOL": pool} if pool else None)
     vf.tlc_ok_or_die(res)
     cases = os.path.join(res["wd"], "cases.ndjson")
-    n = vf.extract_tagged(res["out"], "CASE", cases)
+    n = vf.extract_tagged(res["out"], "CASE", cases + ".unsorted")
     os.remove(res["out"])
     if n == 0:
         raise vf.ToolError("TLC run %s produced no cases (vacuous)" % name)
+    _sort(cases + ".unsorted", cases)     # case numbers select the exact maps: make them reproducible
     res["cases"] = n
     res["cases_path"] = cases
     runs.append(res)
@@ -175,7 +184,7 @@ def check(tier, seed, t0):
     cases, _ = _generate("C12_closest_small", "closest", SMALL, 1, 1, seed, None, runs)
     _execute("closest_small", cases, seed, acc, runs)
     os.remove(cases)
-    cases, _ = _generate("C12_closest_pool", "closest", POOLED, 24 if quick else 3, 8 if quick else 3, seed, pool, runs)
+    cases, _ = _generate("C12_closest_pool", "closest", POOLED, 24 if quick else 2, 8 if quick else 2, seed, pool, runs)
     _execute("closest_pool", cases, seed, acc, runs)
     os.remove(cases)
     # interior_point
